@@ -25,7 +25,7 @@ RULE = ("states = lattice columns compared (two per observation), transitions = 
         "non-emitting state on the best path); outcomes = (index off, index on, sign of the probability difference).")
 ASSUMPTIONS = ["probabilities compared with 1e-9 relative slack"]
 
-NOISE = [{"obs_noise": 1.0}, {"obs_noise": 0.5, "obs_noise_ne": 1.5, "dist_noise": 2.0}]
+NOISE = [{"obs_noise": 1.0}, {"obs_noise": 0.5, "obs_noise_ne": 1.5, "dist_noise": 2.0}, {"obs_noise": 1.0, "dist_noise": 3.0, "dist_noise_ne": 0.3}]
 
 
 def configs(noises):
@@ -64,7 +64,8 @@ def run_case(case):
     if "cfg" in case:
         cfgs = [case["cfg"]]
     else:
-        cfgs = list(configs([0, 1] if case["slice"] in ("n3", "special") else [0]))
+        cfgs = list(configs([0, 1] if case["slice"] == "n3" else ([0, 1, 2] if case["slice"] == "special" else [0, 2])))
+        cfgs = [c for c in cfgs if not ("dist_noise_ne" in c and c["fam"] != "D")]
     for trace in traces:
         T = len(trace)
         for c in cfgs:
